@@ -354,9 +354,9 @@ func init() { runners["C11"] = runC11 }
 func TestC11(t *testing.T) {
 	w := explore.NewWorker("C11")
 	defer w.Finish()
-	depth := 2
+	depth := 3
 	if w.Thorough() {
-		depth = 3
+		depth = 4
 	}
 	w.Bound("depth", depth)
 	alpha := c11Alphabet(w.Thorough())
